@@ -16,6 +16,8 @@ pub enum Ev {
   /// match reader r (reliable?)
   Match(u8, bool),
   Lose(u8),
+  /// the reader is lost together with its whole participant (lease expiry): `Writer::participant_lost`
+  LoseParticipant(u8),
   /// ACKNACK from r with this base (no requests)
   Ack(u8, i64),
   /// start `async_wait_for_acknowledgments()`: first poll, then the writer processes its command queue
@@ -62,8 +64,12 @@ impl Model for M {
           sim.match_reader(*r, *rel, false);
           matched.insert(*r, (*rel, 0));
         }
-        Ev::Lose(r) => {
-          sim.lose_reader(*r);
+        Ev::Lose(r) | Ev::LoseParticipant(r) => {
+          if matches!(ev, Ev::LoseParticipant(_)) {
+            sim.lose_participant_of(*r);
+          } else {
+            sim.lose_reader(*r);
+          }
           matched.remove(r);
           if let Some(p) = pending.as_mut() {
             p.remove(r);
@@ -146,6 +152,7 @@ impl Model for M {
     for (r, rel) in &self.readers {
       if matched.contains_key(r) {
         next.push(Ev::Lose(*r));
+        next.push(Ev::LoseParticipant(*r));
         if *rel {
           let prev = matched[r].1.max(1);
           for b in [prev, prev + 1, nwritten, nwritten + 1] {
@@ -233,9 +240,16 @@ fn sync_cases(rep: &mut Report) {
             let r = dw.wait_for_acknowledgments(max_wait);
             (r.map_err(|e| format!("{e:?}")), t0.elapsed())
           });
-          // writer side: let the command arrive, then play the scenario
-          std::thread::sleep(Duration::from_millis(8));
-          sim.process_commands();
+          // writer side: let the command arrive (however long the waiter thread takes to be scheduled on a busy
+          // machine: until the Writer holds the waiter, or the call has returned already), then play the scenario
+          let t_cmd = Instant::now();
+          loop {
+            sim.process_commands();
+            if sim.waiter_pending().is_some() || handle.is_finished() || t_cmd.elapsed() > Duration::from_millis(1500) {
+              break;
+            }
+            std::thread::sleep(Duration::from_millis(1));
+          }
           match during {
             During::Nothing => {}
             During::AckAll(r) => sim.acknack(r, nwrites as i64 + 1, &[]),
